@@ -81,7 +81,7 @@ func C12(r *report.Report, tier string) {
 	}
 	r.Only = map[string]bool{"C12": true}
 	al := c12Alphabet()
-	r.Rule = fmt.Sprintf("block recycling on disks with 12 and 40 data blocks (every freed block is reallocated within one or two operations): breadth-first search to depth %d over %d symbols - fill f with pattern A over 1/2/9 blocks, fill g with pattern B, truncate to aligned and unaligned sizes, grow, partial-block writes at several offsets, writes past the end, remove, re-create, restart; after every transition every file is read in full and compared byte for byte with the reference (a byte never written since the last truncation below it is 0; no pattern of another or deleted file); plus every crash image of every history of depth <=%d over a sub-alphabet, recovered and compared byte-exactly with the prefix states", depth, len(al), cdepth)
+	r.Rule = fmt.Sprintf("block recycling on disks with 12 and 40 data blocks (every freed block is reallocated within one or two operations): breadth-first search to depth %d over %d symbols - fill f with pattern A over 1/2/9 blocks, fill g with pattern B, truncate to aligned and unaligned sizes, grow, partial-block writes at several offsets, writes past the end, remove, re-create, restart; after every transition every file is read in full and compared byte for byte with the reference (a byte never written since the last truncation below it is 0; no pattern of another or deleted file); plus every crash image of every history of depth <=%d over a sub-alphabet, recovered and compared byte-exactly with the prefix states; plus crash images (quick: 120 per history) of truncations of a 530-block file to sizes inside a block, whose freeing takes several background transactions: after recovery every surviving file is written across its end and grown (one recovery schedule) or written far beyond its end (the other), and the part in between must read as zeros", depth, len(al), cdepth)
 	s1 := RunSeq(r, "c12.tiny12", depth)
 	s2 := RunSeq(r, "c12.tiny40", depth)
 	r.Extra["searches"] = []*SeqSummary{s1, s2}
@@ -92,6 +92,20 @@ func C12(r *report.Report, tier string) {
 	var jobs []crashArg
 	for _, h := range crashHistories(sub, cdepth) {
 		jobs = append(jobs, crashArg{Prop: "C12", DiskSize: 1539 + 1 + 40, Setup: setup, Ops: h, Cap: 128})
+	}
+	// a file of 530 blocks truncated to a size inside a block / removed: the blocks beyond the new end are given back by
+	// several background transactions, and a crash between them leaves the file holding old blocks beyond its end -
+	// after recovery the file is written across / far beyond its end, grown and read (surviveWrites)
+	maxImg := 120
+	if tier == "thorough" {
+		maxImg = 0
+	}
+	for _, h := range [][]fsx.Op{
+		{{K: "SETATTR", H: "root/big", Size: 3*4096 + 100}},
+		{{K: "SETATTR", H: "root/big", Size: 5000}, {K: "WRITE", H: "root/keep", Off: 0, Cnt: 4096, Pat: 0x7f, Stable: 2}},
+		{{K: "SETATTR", H: "root/big", Size: 40 * 4096}, {K: "SETATTR", H: "root/big", Size: 10*4096 + 1}},
+	} {
+		jobs = append(jobs, crashArg{Prop: "C12", DiskSize: 3000, Setup: big530Setup, Ops: h, Cap: 64, MaxImages: maxImg, Probe: &fsx.Probe{Full: 4 << 20}})
 	}
 	runCrashJobs(r, jobs, map[string]bool{"C12": true})
 	r.Extra["bounds"] = map[string]int{"depth": depth, "crash_depth": cdepth}
